@@ -132,6 +132,44 @@ def run(rep, tier, seed, budget):
                  {"vocabularies": [V1, V2, V3], "symbols": "0..%d" % LMAX, "pad_to_len": "-2..%d" % (LMAX + 3), "enc_type": ENC,
                   "vocab indices": "rotation by a free r, first two images optionally swapped (2n bijections per vocabulary)"})
 
+    # two different vocabularies used one after the other in the same process (state kept between calls must not leak)
+    def two_vocab_path(eng, col):
+        ctx.reset()
+        order = int(fresh_int("order", 0, 5))
+        VA, VB = [(V1, V2), (V2, V1), (V3, V1), (V1, V3), (V2, V3), (V3, V2)][order]
+        import re
+        results = []
+        for tag, V in (("a", VA), ("b", VB)):
+            stoi = {s_: i for i, s_ in enumerate(V)}
+            itos = {i: s_ for s_, i in stoi.items()}
+            L = int(fresh_int("L" + tag, 1, 2))
+            s_ = symbols_of(L, V, tag)
+            sc = str(s_)
+            items = re.findall(r"\[[^\[\]]*\]|\.", sc)
+            if not wf(items):
+                return
+            try:
+                lab, hot = eu.selfies_to_encoding(sc, stoi, enc_type="both")
+                flat = eu.batch_selfies_to_flat_hot([sc], stoi)
+                back = eu.batch_flat_hot_to_selfies(flat, itos)
+            except Exception as ex:  # noqa
+                results.append((V, sc, "raised %r" % (ex,)))
+                continue
+            want = [stoi[x] for x in items]
+            okk = list(lab) == want and [list(r) for r in hot] == [[1 if j == k else 0 for j in range(len(V))] for k in want] \
+                and [str(x) for x in back] == [sc] and [list(f) for f in flat] == [[x for r in hot for x in r]]
+            results.append((V, sc, okk))
+        col.nontrivial(tuple((tuple(v), s2) for v, s2, _ in results))
+        col.sample({"first": results[0][1], "second": results[1][1], "vocab_sizes": [len(results[0][0]), len(results[1][0])]})
+        if any(r[2] is not True for r in results):
+            col.candidate({"prop": "C15", "kind": "two_vocab", "calls": [{"vocab": list(v), "selfies": s2} for v, s2, _ in results]})
+
+    left = t_end - time.time()
+    if left > 5:
+        res = driver.explore_parallel(two_vocab_path, min(30, left * 0.4))
+        rep.add_part("two vocabularies of different sizes used in sequence: second call's label / one-hot / flat-hot still exact", res,
+                     {"vocabulary pairs": "all ordered pairs of the three vocabularies", "strings": "1-2 symbols each"})
+
     # batch functions == element-wise functions; flat-hot round trip; ragged vectors raise
     def batch_path(eng, col):
         ctx.reset()
